@@ -202,6 +202,10 @@ carquet_status_t carquet_statistics_add_values(
     if (value_size == 0) {
         return CARQUET_ERROR_INVALID_ARGUMENT;  /* Use byte array API */
     }
+    if (value_size > sizeof(builder->min_value)) {
+        /* min/max storage cannot hold a value of this width */
+        return CARQUET_ERROR_INVALID_ARGUMENT;
+    }
 
     const uint8_t* data = (const uint8_t*)values;
 
